@@ -25,6 +25,15 @@ def plan(tier):
     return 400 if tier == 'quick' else 6000
 
 
+# second workload: the hybrid images the repository's own tests master (harness/suite.py)
+SUITE_TIERS = ('quick', 'thorough')
+
+
+def suite_oracle(data):
+    hy = ihy.decode(data)
+    return [{'key': k, 'detail': d} for k, d in hy.problems] if hy.present else []
+
+
 def build(cs, valid_only=False):
     g = Gen(cs, 'std')
     rng = g.rng
@@ -307,6 +316,9 @@ def check(cfg, ops, seed, counters):
 
 
 def run_case(i, seed, tier):
+    if i >= plan(tier):
+        from harness import suite
+        return suite.run_slot(PROPERTY, i - plan(tier), suite_oracle)
     counters = {}
     cs = seed * 1000003 + i
     cfg, ops = build(cs)
@@ -321,5 +333,8 @@ def run_case(i, seed, tier):
 
 
 def replay(doc):
+    if doc.get('suite_image'):
+        from harness import suite
+        return suite.replay(doc, suite_oracle)
     cfg, ops, seed = common.doc_cfg_ops(doc)
     return check(cfg, ops, seed, {})
